@@ -90,6 +90,9 @@ type fileModel struct {
 	node   *fsNode
 	closed bool
 	write  bool
+	// opened for writing without O_TRUNC over existing content: the first
+	// write overwrites a prefix, what is longer in the old content stays
+	over *jsonBlob
 }
 
 func (*fileModel) isModel() {}
@@ -310,7 +313,11 @@ func init() {
 			}
 			n.data, n.gz = nil, false
 		}
-		return tuple{&fileModel{path: p, node: n, write: true}, iface{}}
+		fm := &fileModel{path: p, node: n, write: true}
+		if flag&oTrunc == 0 && n.data != nil {
+			fm.over = n.data
+		}
+		return tuple{fm, iface{}}
 	})
 	reg("(*os.File).Close", func(i *interpreter, fr *frame, args []value) value {
 		fm, ok := args[0].(*fileModel)
@@ -371,7 +378,7 @@ func init() {
 				return i.pathErr("write", w.f.path, "input/output error", false)
 			}
 			// the file may have been renamed meanwhile: the write goes to the same inode
-			w.f.node.data, w.f.node.gz = w.pending, true
+			w.f.node.data, w.f.node.gz = i.overwritten(w.f, w.pending), true
 			w.pending = nil
 		}
 		return iface{}
@@ -582,8 +589,51 @@ func (i *interpreter) writeBlobTo(dst iface, blob *jsonBlob) value {
 	if !i.env.fsm().step("write", fm.path) {
 		return tuple{int64(0), i.pathErr("write", fm.path, "input/output error", false)}
 	}
-	fm.node.data, fm.node.gz = blob, gz
+	fm.node.data, fm.node.gz = i.overwritten(fm, blob), gz
 	return tuple{int64(1), iface{}}
+}
+
+// overwritten: the content of a file after blob was written at offset 0 of a
+// handle opened without O_TRUNC: blob itself, or blob followed by the tail of
+// the longer old content.  Lengths are compared when both texts are concrete;
+// otherwise both outcomes are explored (a counterexample is replayed natively).
+func (i *interpreter) overwritten(fm *fileModel, blob *jsonBlob) *jsonBlob {
+	old := fm.over
+	fm.over = nil
+	if old == nil || blob == nil {
+		return blob
+	}
+	tail := false
+	ol, ok1 := blobLen(old)
+	nl, ok2 := blobLen(blob)
+	switch {
+	case ok1 && ok2:
+		tail = ol > nl
+	case i.path != nil:
+		tail = i.path.choose(2, "tail") == 1
+	}
+	if !tail {
+		return blob
+	}
+	c := *blob
+	c.trail = true
+	return &c
+}
+
+func blobLen(b *jsonBlob) (n int, ok bool) {
+	defer func() {
+		if recover() != nil {
+			n, ok = 0, false
+		}
+	}()
+	if b.garbage || b.trail {
+		return 0, false
+	}
+	t := b.text()
+	if strings.Contains(t, "<sym") {
+		return 0, false
+	}
+	return len(t), true
 }
 
 func (i *interpreter) readAll(r value) value {
